@@ -83,6 +83,7 @@ theorem storeOrder_inv {s s' : State} {o : Order} {fee : Option Coin} {id : Nat}
           intro heq; subst heq
           exact hnot ha
         · exact hi.wf.commits
+        · exact hi.wf.ckeys
         · exact hi.wf.pays
         · exact hi.wf.keys
 
@@ -132,7 +133,7 @@ theorem cancelOrder_inv {s s' : State} {id : Nat} {signer : Addr} (hi : Inv s)
           have := amountOf_nonneg hnn e
           simp only [contrib]; split <;> omega
         · rw [← h, e1]
-          exact hi.wf.of_subset (deleteOrder_sublist _ _) (Nat.le_refl _) (fun c h => h) (List.Sublist.refl _)
+          exact hi.wf.of_subset (deleteOrder_sublist _ _) (Nat.le_refl _) (List.Sublist.refl _) (List.Sublist.refl _)
 
 /-- under the invariant the owner's cancellation can not fail: the hold is never short -/
 theorem cancelOrder_by_owner_succeeds {s : State} {id : Nat} {o : Order} (hi : Inv s)
@@ -195,6 +196,7 @@ theorem addCommitmentCore_inv {s s' : State} {m : Nat} {a : Addr} {amount : Coin
             · exact entriesNonneg_norm (entriesNonneg_append (getCommitment_nonneg hi.wf.commits m a)
                 (anyNegative_false (by simpa using hneg)))
             · exact hi.wf.commits c hc'
+          · first | exact keys_setCommitment _ _ _ _ hi.wf.ckeys | (dsimp only; exact keys_setCommitment _ _ _ _ hi.wf.ckeys)
           · exact hi.wf.pays
           · exact hi.wf.keys
 
@@ -218,7 +220,7 @@ theorem commitFunds_inv {s s' : State} {m : Nat} {a : Addr} {amount : Coins} {fe
             have hi1 : Inv s1 := by
               rw [e1]
               exact ⟨hi.holdsMatch, by rw [← e1]; exact hcov hi.covered,
-                ⟨hi.wf.orders, hi.wf.ids, hi.wf.idsNodup, hi.wf.commits, hi.wf.pays, hi.wf.keys⟩⟩
+                ⟨hi.wf.orders, hi.wf.ids, hi.wf.idsNodup, hi.wf.commits, hi.wf.ckeys, hi.wf.pays, hi.wf.keys⟩⟩
             have hnd : nodupDenoms amount = true := by
               simp only [not_or, Bool.not_eq_true', Bool.not_eq_false'] at hv
               exact isValidCoins_nodup (by simpa using hv.2.2)
@@ -278,6 +280,7 @@ theorem releaseCommitment_inv {s s' : State} {m : Nat} {a : Addr} {amount : Coin
                 rcases mem_setCommitment hc with rfl | hc'
                 · exact anyNegative_false (by simpa using hneg)
                 · exact hi.wf.commits c hc'
+              · first | exact keys_setCommitment _ _ _ _ hi.wf.ckeys | (dsimp only; exact keys_setCommitment _ _ _ _ hi.wf.ckeys)
               · exact hi.wf.pays
               · exact hi.wf.keys
       · rename_i hnz
@@ -316,6 +319,7 @@ theorem releaseCommitment_inv {s s' : State} {m : Nat} {a : Addr} {amount : Coin
               rcases mem_setCommitment hc with rfl | hc'
               · intro x hx; simp at hx
               · exact hi.wf.commits c hc'
+            · first | exact keys_setCommitment _ _ _ _ hi.wf.ckeys | (dsimp only; exact keys_setCommitment _ _ _ _ hi.wf.ckeys)
             · exact hi.wf.pays
             · exact hi.wf.keys
 
@@ -383,6 +387,7 @@ theorem createPayment_inv {s s' : State} {p : Payment} (hi : Inv s) (h : createP
           · exact hi.wf.ids
           · exact hi.wf.idsNodup
           · exact hi.wf.commits
+          · exact hi.wf.ckeys
           · intro x hx
             rcases mem_setPayment hx with rfl | hx'
             · exact hv'
@@ -411,14 +416,14 @@ theorem deletePaymentAndReleaseHold_inv {s s' : State} {p : Payment} (hi : Inv s
     have := amountOf_nonneg hnn e
     simp only [pcontrib]; split <;> omega
   · rw [e1]
-    exact hi.wf.of_subset (List.Sublist.refl _) (Nat.le_refl _) (fun c h => h) (deletePayment_sublist _ _ _)
+    exact hi.wf.of_subset (List.Sublist.refl _) (Nat.le_refl _) (List.Sublist.refl _) (deletePayment_sublist _ _ _)
 
 theorem sendCoins_inv {s s' : State} {f t : Addr} {coins : Coins} (hi : Inv s) (hn : nodupDenoms coins = true)
     (h : sendCoins s f t coins = some s') : Inv s' ∧ ∀ b e, hold s' b e = hold s b e := by
   have hcov := sendCoins_covered h hi.covered hn
   obtain ⟨k', e1, _⟩ := sendCoins_eq h
   subst e1
-  exact ⟨⟨hi.holdsMatch, hcov, ⟨hi.wf.orders, hi.wf.ids, hi.wf.idsNodup, hi.wf.commits, hi.wf.pays, hi.wf.keys⟩⟩, fun _ _ => rfl⟩
+  exact ⟨⟨hi.holdsMatch, hcov, ⟨hi.wf.orders, hi.wf.ids, hi.wf.idsNodup, hi.wf.commits, hi.wf.ckeys, hi.wf.pays, hi.wf.keys⟩⟩, fun _ _ => rfl⟩
 
 theorem acceptPayment_inv {s s' : State} {p : Payment} (hi : Inv s) (h : acceptPayment s p = .ok s') :
     ∃ ex, getPayment s.payments p.source p.extId = some ex ∧ Inv s' ∧
@@ -599,6 +604,7 @@ theorem updatePaymentTarget_inv {s s' : State} {src : Addr} {ext : String} {nt :
         · exact hi.wf.ids
         · exact hi.wf.idsNodup
         · exact hi.wf.commits
+        · exact hi.wf.ckeys
         · intro x hx
           rcases mem_setPayment hx with rfl | hx'
           · exact hi.wf.pays ex (getPayment_mem hg)
